@@ -7,7 +7,7 @@ use i18n_embed_fl::fl;
 use crate::{AttributedChar, EngineResult, Layer, Palette, Position, Rectangle, SauceData, Sixel, Size, TextPane};
 
 use super::{
-    undo_operations::{Paste, ReverseCaretPosition, ReversedUndo, UndoSetChar, UndoSwapChar},
+    undo_operations::{Paste, ReverseCaretPosition, ReversedUndo, UndoSetChar},
     EditState, OperationType, UndoOperation,
 };
 
@@ -45,8 +45,15 @@ impl EditState {
         let pos1 = pos1.into();
         let pos2 = pos2.into();
         let layer = self.get_current_layer()?;
-        let op = UndoSwapChar { layer, pos1, pos2 };
-        self.push_undo_action(Box::new(op))
+        // recorded as two set_char steps: a swap is not its own inverse when one of the two writes is refused
+        // (position outside the layer, locked alpha channel)
+        let (ch1, ch2) = {
+            let l = &self.buffer.layers[layer];
+            (l.get_char(pos1), l.get_char(pos2))
+        };
+        let _undo = self.begin_atomic_undo(String::new());
+        self.push_undo_action(Box::new(UndoSetChar { pos: pos1, layer, old: ch1, new: ch2 }))?;
+        self.push_undo_action(Box::new(UndoSetChar { pos: pos2, layer, old: ch2, new: ch1 }))
     }
 
     /// .
